@@ -16,7 +16,7 @@ import sys
 import time
 
 VERIF = os.path.dirname(os.path.dirname(os.path.abspath(__file__)))
-WT = '/tmp/vsim-seeded-wt'
+WT = os.environ.get('VSIM_SEEDED_WT', '/tmp/vsim-seeded-wt')
 
 
 def sh(cmd, **kw):
